@@ -162,8 +162,8 @@ def c20c(prog, R):
     r.floor(10)
 
 
-def c20d(prog, R):
-    r = R.rule("C20.d", "version-file GC removes only the file of the entry it pops, and keeps what a snapshot may need", "P,D,B")
+def c20d(prog, R, rid="C20.d"):
+    r = R.rule(rid, "version-file GC removes only the file of the entry it pops, and keeps what a snapshot may need", "P,D,B")
     f = prog.need(A.MAINTENANCE)
     fam = prog.family(f)
     rms = [c for g in fam for c in g.calls_to(A.REMOVE_FILE)]
